@@ -249,8 +249,9 @@ class AnsiString:
         s = str(s) # In case this is an AnsiStr, get the raw string rather than its overrides
         current_settings:Dict[AnsiParamEffect, AnsiSetting] = {}
         parsed_str = ParsedAnsiControlSequenceString(s, False, ansi_graphic_rendition_code_terminator)
-        # A sequence with a private parameter string (ex: ESC[>4;2m or ESC[?4m) is not a graphic rendition
-        # sequence even though it ends with 'm': like any other control sequence, it stays in the text
+        # A sequence with a private parameter string (ex: ESC[>4;2m or ESC[?4m) or with intermediate bytes (ex:
+        # ESC[1 m or ESC[+1m) is not a graphic rendition sequence even though it ends with 'm': like any other
+        # control sequence, it stays in the text
         self._s = ''
         sequences:Dict[int,list] = {}
         last_key = 0
@@ -258,7 +259,7 @@ class AnsiString:
             self._s += parsed_str.unformatted_str[last_key:key]
             last_key = key
             for value in value_list:
-                if value.sequence[:1] in ('<', '=', '>', '?'):
+                if any(c not in '0123456789;:' for c in value.sequence):
                     self._s += ansi_control_sequence_introducer + value.sequence + value.terminator
                 else:
                     sequences.setdefault(len(self._s), []).append(value)
@@ -303,10 +304,13 @@ class AnsiString:
         Attempts to simplify formatting by re-parsing the ANSI formatting data. This will throw out any data internally
         determined as invalid and remove redundant settings.
         '''
-        # First remove any settings which are completely invalid
+        # First remove any settings which are completely invalid, or which are not made of parameters only and would
+        # therefore not be read back as a graphic rendition sequence (they would end up in the text)
+        def keep(x):
+            return x.valid and all(c in '0123456789;:' for c in str(x))
         for point in self._fmts.values():
-            point.add = [x for x in point.add if x.valid]
-            point.rem = [x for x in point.rem if x.valid]
+            point.add = [x for x in point.add if keep(x)]
+            point.rem = [x for x in point.rem if keep(x)]
         # Re-parse string
         self.set_ansi_str(str(self))
 
